@@ -100,6 +100,12 @@ def generate(rng, tier):
             first += ["R"] + G.rviewbox(rng) + [G.rpalette(rng, default_ok=False)] + (["B"] if rng.below(2) else [])
         second = G.program(rng, reset=(rng.below(3) == 0)) + ["B"]
         g["encoder-sharing"].append("ESHARE " + " ".join(first) + " | " + " ".join(second))
+        # the bundled rasteriser wrapper: an earlier graphic drawn into an empty rectangle consumes the one-shot operator
+        if rng.below(4) == 0:
+            from . import c16
+            a6, b6 = c16.Script(rng, gradients=False).tokens(), c16.Script(rng, gradients=False).tokens()
+            b6 = b6[:6] + ["CS", "0", "CR", "0", "0", "#" + rng.choice(["80000080", "40404040", "00008080"])] + b6[6:]
+            g.setdefault("rasteriser-operator-reuse", []).append("PIXOP rgba 24 33 SR 0 0 0 0 %s SR 0 0 24 33 %s" % (" ".join(a6), " ".join(b6)))
     return g
 
 
@@ -108,12 +114,16 @@ def project(case, out):
 
 
 def nontrivial(case, out):
-    return "B=8" in out or " d " in out
+    return "B=8" in out or " d " in out or "paths=" in out
 
 
 def always_check(case, io):
     if io.startswith(("PANIC", "CRASH", "MISSING")):
         return True, io[:200]
+    if case.startswith("PIXOP"):
+        if "WRONG" in io:
+            return True, "the rasteriser wrapper's one-shot operator leaked from an earlier (empty-rectangle) Draw into a later graphic"
+        return False, ""
     if case.startswith("ESHARE"):
         if io.endswith("A-CHANGED"):
             return True, "an Encoder's bytes changed because another Encoder was used"
